@@ -133,6 +133,14 @@ def oracle_hmm(rng, n, fails):
             m2 = L.homogeneous_matrix(t)
             if not close(m2, as_full(t, D)):
                 fails.append({"key": f"C08:homogeneous_matrix:{f}", "what": "differs", "case": desc, "t": t.tolist()})
+            # offset= ADDS a translation to the map of the operand, for every operand form (vector and scalar offsets)
+            for off in (torch.tensor([rng.uniform(-2, 2) for _ in range(D)], dtype=t.dtype), torch.tensor(rng.uniform(-2, 2), dtype=t.dtype)):
+                m3 = L.homogeneous_matrix(t, offset=off)
+                want = as_full(t, D).clone()
+                want[..., :D, D] = want[..., :D, D] + off
+                if not close(m3, want):
+                    fails.append({"key": f"C08:homogeneous_matrix:{f}:offset", "what": "homogeneous_matrix(t, offset=o) is not the map of t followed by the translation o",
+                                  "case": desc, "t": t.tolist(), "offset": off.tolist(), "got": m3.tolist(), "want": want.tolist()})
         except Exception as e:  # noqa
             fails.append({"key": f"C08:as_homogeneous_matrix:{f}:raises", "what": f"raises {type(e).__name__}: {str(e)[:120]}",
                           "case": desc, "t": t.tolist()})
@@ -375,18 +383,26 @@ def oracle_params(rng, n, fails):
             (S.Shearing, "angles", "angles_", lambda: torch.tensor([[rng.uniform(-0.7, 0.7) for _ in range(D * (D - 1) // 2)]])),
             (S.Translation, "offset", "offset_", lambda: torch.tensor([[rng.uniform(-1, 1) for _ in range(D)]])),
         ):
-            count += 1
-            try:
-                t = cls(g)
-                v = gen()
-                getattr(t, setter)(v)
-                got = getattr(t, getter)()
-                if not close(got.reshape(v.shape), v, 1e-6):
-                    fails.append({"key": f"C08:{cls.__name__}.{getter}", "what": f"{setter}(v); {getter}() != v", "v": v.tolist(), "got": got.tolist()})
-            except AttributeError:
-                pass
-            except Exception as e:  # noqa
-                fails.append({"key": f"C08:{cls.__name__}:raises", "what": f"raises {type(e).__name__}: {str(e)[:100]}"})
+            for params in (True, False, "tensor"):
+                count += 1
+                try:
+                    t = cls(g, params=torch.zeros((1,) + tuple(cls(g).data_shape)) if params == "tensor" else params)
+                    v = gen()
+                    getattr(t, setter)(v)
+                    got = getattr(t, getter)()
+                    if not close(got.reshape(v.shape), v, 1e-5):
+                        fails.append({"key": f"C08:{cls.__name__}.{getter}", "what": f"{setter}(v); {getter}() != v (params={params})", "v": v.tolist(),
+                                      "got": got.tolist(), "params": str(params)})
+                    # the matrix is the one the values denote, whatever holds the parameters
+                    t_ref = cls(g, params=True)
+                    getattr(t_ref, setter)(v)
+                    if params is not True and not close(t.tensor(), t_ref.tensor(), 1e-5):
+                        fails.append({"key": f"C08:{cls.__name__}.tensor:params-holder", "what": f"tensor() after {setter}(v) depends on how the parameters are held (params={params})",
+                                      "v": v.tolist(), "params": str(params)})
+                except AttributeError:
+                    pass
+                except Exception as e:  # noqa
+                    fails.append({"key": f"C08:{cls.__name__}:raises", "what": f"params={params}: raises {type(e).__name__}: {str(e)[:100]}"})
     return count
 
 
